@@ -60,6 +60,7 @@ fn opcode(op: &Op) -> u64 {
         Op::AdapterIntoInner(_) => 26,
         Op::Reinsert(_) => 27,
         Op::ProbeDead => 28,
+        Op::Churn(_) => 29,
     }
 }
 
@@ -675,6 +676,35 @@ pub fn exec_op(op: &Op, ctx: Ctx) {
         Op::AdapterIntoInner(i) => super::adapt::release(*i, true),
         Op::Reinsert(i) => super::adapt::reinsert(*i, ctx),
         Op::ProbeDead => probe_dead(&h, ctx),
+        Op::Churn(n) => {
+            // the same slot is taken and freed n times; every token issued on the way dies at once
+            let spec = SourceSpec { kind: Kind::Ping, lifecycle: false, prog: vec![], fault: None, via_insert: true, bad_fd: None, ready_at_insert: false };
+            for _ in 0..*n {
+                if let Some(uid) = build::insert(&spec, ctx) {
+                    let tok = w(|w| {
+                        w.count("churn_cycle");
+                        w.srcs[uid].ping_handles.clear();
+                        w.srcs[uid].token
+                    });
+                    if let Some(t) = tok {
+                        let prev = w(|w| std::mem::replace(&mut w.reg_ctx, RegCtx::Op(uid)));
+                        h.remove(t);
+                        w(|w| {
+                            w.reg_ctx = prev;
+                            let d = w.dispatch_no;
+                            let s = &mut w.srcs[uid];
+                            s.st = St::Removed;
+                            s.removed_dispatch = d;
+                            s.released = true;
+                            // only the last few dead tokens are kept for later probing
+                            if uid % 64 != 0 {
+                                s.token = None;
+                            }
+                        });
+                    }
+                }
+            }
+        }
     }
 }
 
